@@ -18,9 +18,11 @@ import (
 	"fmt"
 	"io"
 	"net"
+	"os"
 	"reflect"
 	"runtime"
 	"sort"
+	"strconv"
 	"strings"
 	"sync"
 	"sync/atomic"
@@ -28,6 +30,7 @@ import (
 	"time"
 
 	"github.com/miekg/dns"
+	"github.com/prometheus/client_golang/prometheus"
 	"github.com/semihalev/sdns/config"
 	"github.com/semihalev/sdns/middleware"
 	"github.com/semihalev/sdns/server"
@@ -280,6 +283,67 @@ func resolverSlots() map[string]int {
 	return out
 }
 
+// lossCounters are the places where a datagram or a connection can be dropped before it is a query the
+// server admitted: the kernel's UDP error counters (system-wide) and the engines' own ingress drop counters.
+type lossCounters struct {
+	KernelUDP int64            `json:"kernelUdpErrors"`
+	Ingress   map[string]int64 `json:"ingressDrops"`
+}
+
+func readLoss() lossCounters {
+	lc := lossCounters{Ingress: map[string]int64{}}
+	if b, err := os.ReadFile("/proc/net/snmp"); err == nil {
+		var hdr []string
+		for _, ln := range strings.Split(string(b), "\n") {
+			if !strings.HasPrefix(ln, "Udp:") {
+				continue
+			}
+			f := strings.Fields(ln)
+			if hdr == nil {
+				hdr = f
+				continue
+			}
+			for i := range f {
+				if i < len(hdr) && (hdr[i] == "InErrors" || hdr[i] == "RcvbufErrors" || hdr[i] == "SndbufErrors" || hdr[i] == "MemErrors") {
+					v, _ := strconv.ParseInt(f[i], 10, 64)
+					lc.KernelUDP += v
+				}
+			}
+		}
+	}
+	if mfs, err := prometheus.DefaultGatherer.Gather(); err == nil {
+		for _, mf := range mfs {
+			n := mf.GetName()
+			if n != "dns_udp_ingress_drops_total" && n != "dns_tcp_ingress_drops_total" {
+				continue
+			}
+			for _, m := range mf.GetMetric() {
+				lab := n
+				for _, l := range m.GetLabel() {
+					lab += "/" + l.GetValue()
+				}
+				if c := m.GetCounter(); c != nil {
+					lc.Ingress[lab] = int64(c.GetValue())
+				}
+			}
+		}
+	}
+	return lc
+}
+
+func (a lossCounters) since(b lossCounters) (kernel int64, ingress int64, detail map[string]int64) {
+	detail = map[string]int64{}
+	for k, v := range a.Ingress {
+		if d := v - b.Ingress[k]; d != 0 {
+			detail[k] = d
+			if !strings.HasSuffix(k, "/malformed") && !strings.HasSuffix(k, "/ignored") {
+				ingress += d
+			}
+		}
+	}
+	return a.KernelUDP - b.KernelUDP, ingress, detail
+}
+
 type obs struct {
 	script   int
 	role     string // udp-dup | udp-other | tcp-dup
@@ -373,6 +437,7 @@ func TestFaultScripts(t *testing.T) {
 	time.Sleep(200 * time.Millisecond)
 	baseG := runtime.NumGoroutine()
 	baseSlots := resolverSlots()
+	loss0 := readLoss()
 
 	stopLoad := make(chan struct{})
 	for i := 0; i < in.Load; i++ {
@@ -568,6 +633,15 @@ func TestFaultScripts(t *testing.T) {
 	})
 	var worst time.Duration
 	rcodes := map[string]int{}
+	lossK, lossI, lossDetail := readLoss().since(loss0)
+	upstreamSaw := map[string]int{}
+	for _, srv := range []*authkit.Server{w.a, w.b} {
+		for _, e := range srv.Log() {
+			upstreamSaw[strings.ToLower(e.Q.Name)]++
+		}
+	}
+	res.Count("kernel_udp_errors", int(lossK))
+	res.Count("ingress_drops", int(lossI))
 	for _, o := range all {
 		sc := in.Scripts[o.script]
 		key := fmt.Sprintf("A=%s B=%s", strings.Join(sc.A, ","), strings.Join(sc.B, ","))
@@ -577,8 +651,23 @@ func TestFaultScripts(t *testing.T) {
 			"queryTimeoutMs": in.QueryTimeoutMs, "marginMs": in.MarginMs}
 		switch {
 		case o.replies == 0:
-			res.Violate("no-reply", fmt.Sprintf("script %d (%s): the %s query for %s got no reply within querytimeout+margin (%v)",
-				o.script, key, o.role, o.name, budget), rep)
+			// Was the query admitted? A datagram the kernel or the ingress dropped never was (C11 exempts
+			// shedding). Witnesses: the authoritative servers saw this client's own question (unique name),
+			// or nothing anywhere recorded a drop during the whole run.
+			rep["upstreamSawQuestion"] = upstreamSaw[strings.ToLower(o.name)]
+			rep["kernelUdpErrorsDuringRun"], rep["ingressDropsDuringRun"], rep["ingressDropDetail"] = lossK, lossI, lossDetail
+			switch {
+			case o.role == "udp-other" && upstreamSaw[strings.ToLower(o.name)] > 0:
+				res.Violate("no-reply-admitted", fmt.Sprintf("script %d (%s): the %s query for %s reached the resolver (its question was asked upstream %d times) and the client got no reply within querytimeout+margin (%v)",
+					o.script, key, o.role, o.name, upstreamSaw[strings.ToLower(o.name)], budget), rep)
+			case lossK == 0 && lossI == 0:
+				res.Violate("no-reply", fmt.Sprintf("script %d (%s): the %s query for %s got no reply within querytimeout+margin (%v); no datagram or connection was dropped anywhere during the run",
+					o.script, key, o.role, o.name, budget), rep)
+			default:
+				res.Count("lost_unattributed", 1)
+				res.DriftNote("script %d (%s): %s query for %s unanswered, but drops were recorded during the run (kernel %d, ingress %v): not attributable to an admitted query",
+					o.script, key, o.role, o.name, lossK, lossDetail)
+			}
 		case o.replies > 1:
 			res.Violate("two-replies", fmt.Sprintf("script %d (%s): the %s query for %s got %d replies",
 				o.script, key, o.role, o.name, o.replies), rep)
